@@ -364,11 +364,15 @@ def case_public(c):
     return {k: c[k] for k in ("accounts", "comms", "permit", "tags", "equity", "eqa", "rc", "ovc", "schan", "price", "kinds") if k in c}
 
 
-def main(run):
-    info = proof_stage(run, "C12", extra_targets=["corr/C12_corr.vo"])
-    harness_build()
-    n = 150 if run.tier == "quick" else 2500
-    cases = gen_cases(run, n)
+def main(run, only=None):
+    """only: the cases of a replay (no generation, no proof stage, no verdict)"""
+    if only is None:
+        info = proof_stage(run, "C12", extra_targets=["corr/C12_corr.vo"])
+        harness_build()
+        n = 150 if run.tier == "quick" else 2500
+        cases = gen_cases(run, n)
+    else:
+        cases = only
     reqs = []
     for c in cases:
         reqs += sessions(c)
@@ -424,6 +428,8 @@ def main(run):
                 bool(bits & 8), bool(bits & 16), bool(bits & 32))
             run.violation("correspondence broken: model Charts.load differs from the implementation (spec oracle clean on this input)",
                           rep, found_input=False)
+    if only is not None:
+        return None
     run.cov["distinct_nontrivial"] = len(distinct)
     run.cov["rule"] = ("seeded journals (1-3 transactions, account trees of depth <= 4, tags, '{..}' with a commodity declared nowhere, '@' '=', "
                        "implicit last posting, empty commodity) with generated charts: accounts exact / parent-closed / some ancestors / one missing / "
@@ -438,22 +444,33 @@ def main(run):
 
 
 def replay(run, path):
-    j = json.load(open(path))
-    rp = j.get("replay", j)
+    """the stored charts + structured journal through the three sessions (strict, strict off, strict off with nothing
+    declared) + c12_case; also accepts a bare corpus case"""
+    j0 = json.load(open(path))
+    if isinstance(j0, dict) and isinstance(j0.get("replay"), dict):
+        j, rp, rc = replay_begin(run, path)
+        if rc is not None:
+            return rc
+    else:
+        j, rp = (j0 if isinstance(j0, dict) else {}), (j0 if isinstance(j0, dict) else {})
     if "accounts" in rp and "txns" in rp:        # a corpus case
         c = dict(rp)
     else:
-        c = dict(rp.get("charts", {}))
+        c = dict(rp.get("charts") or {})
         c["txns"] = rp.get("txns")
         c.setdefault("accounts", []); c.setdefault("comms", []); c.setdefault("tags", [])
     if not c.get("txns"):
-        print(json.dumps(j, indent=1, ensure_ascii=False)[:6000])
-        return 0
+        return replay_print(j0)
     for k, d in (("permit", None), ("rc", None), ("ovc", None), ("price", None), ("equity", False), ("eqa", "Equity:Balance")):
         c.setdefault(k, d)
+    c["src"] = "replay"
+    print(j.get("what"))
+    corr_build("C12")
     harness_build()
-    res = harness_run(sessions(c))
-    o = [observe(c, x) for x in res]
+    main(run, only=[c])
+    o = c.get("obs") or []
     print(json.dumps({"charts": case_public(c), "journal": J.print_journal(c["txns"]),
-                      "runs(strict,lax,no-chart)": [brief(x) for x in o], "verdict": explain(c, o) or ["no clause of the specification is contradicted by these runs"]}, indent=1, ensure_ascii=False)[:8000])
-    return 0
+                      "runs(strict,lax,no-chart)": [brief(x) for x in o],
+                      "clauses contradicted": (explain(c, o) if len(o) == 3 and all(x["cls"] != "other" for x in o) else [])}, indent=1, ensure_ascii=False)[:8000])
+    return replay_verdict(run, path, j, "the three runs of the stored case (%s) contradict no clause of the specification and the model agrees "
+                                        "(or the case is not evaluated: other stage / outside the exact domain)" % "/".join(x["cls"] for x in o))
